@@ -27,7 +27,7 @@ for pid in CLAIMED:
         "level_claimed": {
             "category": "other",
             "text": meta.get("text", "static decision of necessary structural obligations of the property on every path of the analysed functions; not a proof of the behavioural statement"),
-            "design_ref": f"DESIGN.md section 3, {pid}",
+            "design_ref": f"DESIGN.md section 3 ({pid}) and section 8 (rules added during the build, seeded-change results)",
         },
         "level_note": meta.get("note", ""),
         "technique": meta.get("technique", "static analysis (ast, CFG with exceptional edges, dataflow, call graph)"),
@@ -48,10 +48,10 @@ man = {
         "name": "djc_sa",
         "path": "/verif/djc_sa",
         "serves_properties": [c["property_id"] for c in checks],
-        "kind_free_text": "repository-specific static analyser in pure-stdlib Python (ast): statement CFG with exceptional edges, dominators, dataflow, resolved call graph, global-state inventory and access classification, regex-language (re._parser) and abstract string alphabets; run with /venv/bin/python; mypy (already in /venv) only as an optional second opinion in the thorough tier",
+        "kind_free_text": "repository-specific static analyser in pure-stdlib Python (ast): statement CFG with exceptional edges, dominators, dataflow, resolved call graph, global-state inventory and access classification, regex-language (re._parser) and abstract string alphabets; run with /venv/bin/python; reads /repo's working tree on every run and, for two rules, the installed Django's source (parsed, never imported)",
     }],
     "checks": checks,
-    "notes": "Every check decides structural obligations that are necessary for its property (DESIGN.md section 0) and says so in evidence; exit 0 held / 1 VIOLATION / 2 ANALYSIS-ERROR (undecided, never a false alarm). Known findings: /verif/known_findings.json. Seeded breaking changes and which checks catch them: /verif/seeded and DESIGN.md section 8.",
+    "notes": "Every check decides structural obligations that are necessary for its property (DESIGN.md section 0) and says so in evidence; exit 0 held / 1 VIOLATION / 2 ANALYSIS-ERROR (undecided, never a false alarm). Known findings: /verif/known_findings.json. Seeded breaking changes (162 confirmed, three rounds), their blind and current outcomes: /verif/seeded/RESULTS.md and DESIGN.md section 8.4. Thorough tier = quick + informational self-test / regression replay / rename fuzz of the checker (DESIGN.md section 8.5).",
     "not_applicable": NOT_APPLICABLE,
 }
 json.dump(man, open(os.path.join(os.path.dirname(os.path.abspath(__file__)), "MANIFEST.json"), "w"), indent=1)
